@@ -274,7 +274,7 @@ CLAIMS["C05"] = dict(
          "positive-rate event owning it and to advance time by exactly that minimum (model_step_is_first_min, chosen_event_can_fire, model_step_time, first_min_iff), and the pair (event chosen by that "
          "first-minimum rule, time advance) under independent Exp(r_i) draws has exactly the one-step law of the continuous-time Markov chain, ties included "
          "(model_step_law, model_choice_law). The jump probabilities r_i/sum r sum to one (stepProbs_sum_to_one) and the exact rational SIR final-size law computed from the embedded jump "
-         "chain (finalSizePMF, served to the harness by the driver op `finalsize`) is a probability vector for every S0, I0, beta >= 0, gamma > 0, N > 0 (finalSizePMF_sums_to_one). "
+         "chain (finalSizePMF, served to the harness by the driver op `finalsize`) is a probability mass function for every S0, I0, beta >= 0, gamma > 0, N > 0 (finalSizePMF_sums_to_one, finalSizePMF_nonneg). "
          "Tie of model to code on every run: (a) exact identities, no statistics: after np.random.seed(s), rexp(1, r) == RandomState(s).standard_exponential()*(1.0/r) == "
          "RandomState(s).exponential(scale=1/r) bit for bit (scalar, vector, consecutive calls); (b) real solve_stochast(exact=True) runs with every numpy draw and evaluator call recorded, each loop "
          "iteration replayed through the Lean step model from the observed pre-state, and the recorded clocks aligned with the path independently of the evaluator calls (one clock per "
